@@ -80,3 +80,12 @@ def _lower_index(i):
     if isinstance(i, SymTensor):
         return _lower_cached(i)
     return i
+
+
+def ensure_view_getitem():
+    """Other op-table files imported after this one may wrap `__getitem__` again with a plain `nometa=True` flag, which sends
+    all-concrete subscripts back to the copy-making default dispatch.  Contracts that rely on view semantics (C06/C15) call this
+    at import time: the current handler chain is kept, only the 'always' flag is restored."""
+    h, flag = HANDLERS[T.__getitem__]
+    if flag != "always":
+        HANDLERS[T.__getitem__] = (h, "always")
